@@ -1,1 +1,51 @@
 use super::*;
+
+//@ name: c04_client_validate_response
+//@ prop: C04
+//@ tier: quick
+//@ clause: a call never returns a response whose id differs from its own request's id (whatever the reply order or interleaving: this filter sits on the return path of every call); version and error code are surfaced as errors, a server error keeps its code
+//@ funcs: Client::validate_response
+//@ symbolic: expected id and all 11 response header fields (full width); body chosen by selector among empty / one non-UTF-8 byte / "ok"
+//@ bounds: body <= 2 bytes; unwind 6
+//@ oracle: Ok(r) => r.header.id == expected and version == 1 and ec == 0 and r is the response unchanged; ec != 0 => ServerError with that code (unknown codes map to ParseError); id mismatch => ResponseIdMismatch
+//@ stubs: alloc::fmt::format -> empty String
+#[kani::proof]
+#[kani::stub(std::fmt::format, crate::verif_common::format_stub)]
+#[kani::unwind(6)]
+fn c04_client_validate_response() {
+    let expected: u64 = kani::any();
+    let h = crate::verif_common::any_header();
+    let body: Vec<u8> = match kani::any::<u8>() % 3 {
+        0 => Vec::new(),
+        1 => vec![0xffu8], // not UTF-8 (concrete: lossy decoding of a symbolic byte costs minutes)
+        _ => vec![b'o', b'k'],
+    };
+    let blen = body.len();
+    let resp = Message { header: h, query: Vec::new(), body };
+    match Client::validate_response(expected, resp) {
+        Ok(r) => {
+            assert!(r.header.id == expected, "call returned a response with another id");
+            assert!(h.id == expected && h.version == 1 && h.ec == 0);
+            assert!(r.header == h && r.body.len() == blen);
+            std::mem::forget(r);
+        }
+        Err(e) => {
+            match &e {
+                RepeError::VersionMismatch(v) => assert!(*v == h.version && h.version != 1),
+                RepeError::ResponseIdMismatch { expected: ex, got } => {
+                    assert!(h.version == 1 && *ex == expected && *got == h.id && h.id != expected)
+                }
+                RepeError::ServerError { code, .. } => {
+                    assert!(h.version == 1 && h.id == expected && h.ec != 0);
+                    let want = ErrorCode::try_from(h.ec).unwrap_or(ErrorCode::ParseError);
+                    assert!(*code == want);
+                }
+                _ => panic!("unexpected error kind"),
+            }
+            std::mem::forget(e);
+        }
+    }
+    kani::cover!(h.id == expected && h.version == 1 && h.ec == 0);
+    kani::cover!(h.id != expected && h.version == 1);
+    kani::cover!(h.id == expected && h.version == 1 && h.ec == 4097);
+}
